@@ -79,3 +79,16 @@ theorem lower_bad_id : lowerBad forbIdL = (List.range 85).map (· + 0x13A0) := b
 theorem lower_bad_ff : lowerBad forbFfL = (List.range 85).map (· + 0x13A0) := by decide +kernel
 
 end Precis.Facts
+
+namespace Precis.Facts
+open Precis Precis.Step Precis.Gen.Forb Precis.Gen.Norm Precis.Gen.Std Precis.Gen.Prof
+set_option maxRecDepth 1000000
+
+/-- every lowercase image is a code point of Unicode -/
+theorem lower_images_bounded : toLowerTabL.all (fun e => e.2.all (fun x => decide (x < 0x110000))) = true := by
+  decide +kernel
+
+/-- U+0020 is not forbidden in FreeformClass (it is FREE_PVAL) -/
+theorem space_allowed_ff : (bitsOf forbFfL).testBit 0x20 = false := by decide +kernel
+
+end Precis.Facts
